@@ -457,57 +457,7 @@ func c02(c *Ctx) {
 
 	c.Rule("R5", "E3 total fan-out", "every loop that delivers a measurement (or builds the aggregators) for each reader pipeline is total", 8)
 	fan := func(ix *PkgIndex, fname string, isTarget func(info *types.Info, call *ast.CallExpr) bool, what string) {
-		fn := c.Fn(ix, "R5", fname)
-		if fn == nil {
-			return
-		}
-		info := ix.Pkg.TypesInfo
-		g := ix.FG(fn)
-		calls := g.Match(func(n ast.Node) bool {
-			call, ok := n.(*ast.CallExpr)
-			return ok && isTarget(info, call)
-		})
-		key := shortPkg(ix.Pkg.PkgPath) + "|" + fname + "|" + what + " on every iteration"
-		if len(calls) == 0 {
-			// the loop may live in a helper of the package that this function calls on every path
-			for _, x := range g.Match(func(n ast.Node) bool {
-				call, ok := n.(*ast.CallExpr)
-				if !ok {
-					return false
-				}
-				h := ix.declByObj(callee(info, call))
-				return h != nil && h != fn && len(ix.FG(h).Match(func(m ast.Node) bool { hc, ok := m.(*ast.CallExpr); return ok && isTarget(info, hc) })) > 0
-			}) {
-				var h *FuncInfo
-				inspectNoLit(x.N, func(n ast.Node) bool {
-					if call, ok := n.(*ast.CallExpr); ok {
-						if d := ix.declByObj(callee(info, call)); d != nil && d != fn {
-							h = d
-						}
-					}
-					return true
-				})
-				if h != nil {
-					fn, g = h, ix.FG(h)
-					calls = g.Match(func(n ast.Node) bool {
-						call, ok := n.(*ast.CallExpr)
-						return ok && isTarget(info, call)
-					})
-					break
-				}
-			}
-		}
-		if len(calls) == 0 {
-			c.Violation("R5", key, at(ix.M, fn.Pos()), "fan-out call not found")
-			return
-		}
-		good, why := true, ""
-		for _, x := range calls {
-			if ok, w := totalFanout(g, x); !ok {
-				good, why = false, w
-			}
-		}
-		c.Check(good, "R5", key, at(ix.M, calls[0].N.Pos()), "no break/continue/return ahead of the call", "a reader's pipeline can be skipped: "+why)
+		ruleFanout(c, ix, "R5", fname, isTarget, what)
 	}
 	rangeVarCall := func(info *types.Info, call *ast.CallExpr) bool {
 		// call of a func-typed local (the range variable over a []Measure)
@@ -1282,4 +1232,60 @@ func ruleMeasureAtomic(c *Ctx, ax *PkgIndex, rule string) {
 		c.Check(bad == "" && len(reads) > 0 && len(writes) > 0, rule, "aggregate|"+sp.fn+"|look-up and write-back of the entry in one critical section", at(ax.M, fn.Pos()),
 			itoa(len(reads))+" read(s), "+itoa(len(writes))+" write-back(s), no release in between", "a concurrent first measurement of the same attribute set is lost (two goroutines start from the zero entry, the second store overwrites the first): "+bad)
 	}
+}
+
+// ruleFanout: the loop in fname that performs the target call once per element (reader pipeline, measure) is total — nothing
+// leaves the iteration ahead of the call. Shared by C02.R5 and C12.R7.
+func ruleFanout(c *Ctx, ix *PkgIndex, rule, fname string, isTarget func(info *types.Info, call *ast.CallExpr) bool, what string) {
+	fn := c.Fn(ix, rule, fname)
+	if fn == nil {
+		return
+	}
+	info := ix.Pkg.TypesInfo
+	g := ix.FG(fn)
+	calls := g.Match(func(n ast.Node) bool {
+		call, ok := n.(*ast.CallExpr)
+		return ok && isTarget(info, call)
+	})
+	key := shortPkg(ix.Pkg.PkgPath) + "|" + fname + "|" + what + " on every iteration"
+	if len(calls) == 0 {
+		// the loop may live in a helper of the package that this function calls on every path
+		for _, x := range g.Match(func(n ast.Node) bool {
+			call, ok := n.(*ast.CallExpr)
+			if !ok {
+				return false
+			}
+			h := ix.declByObj(callee(info, call))
+			return h != nil && h != fn && len(ix.FG(h).Match(func(m ast.Node) bool { hc, ok := m.(*ast.CallExpr); return ok && isTarget(info, hc) })) > 0
+		}) {
+			var h *FuncInfo
+			inspectNoLit(x.N, func(n ast.Node) bool {
+				if call, ok := n.(*ast.CallExpr); ok {
+					if d := ix.declByObj(callee(info, call)); d != nil && d != fn {
+						h = d
+					}
+				}
+				return true
+			})
+			if h != nil {
+				fn, g = h, ix.FG(h)
+				calls = g.Match(func(n ast.Node) bool {
+					call, ok := n.(*ast.CallExpr)
+					return ok && isTarget(info, call)
+				})
+				break
+			}
+		}
+	}
+	if len(calls) == 0 {
+		c.Violation(rule, key, at(ix.M, fn.Pos()), "fan-out call not found")
+		return
+	}
+	good, why := true, ""
+	for _, x := range calls {
+		if ok, w := totalFanout(g, x); !ok {
+			good, why = false, w
+		}
+	}
+	c.Check(good, rule, key, at(ix.M, calls[0].N.Pos()), "no break/continue/return ahead of the call", "a reader's pipeline can be skipped: "+why)
 }
